@@ -58,6 +58,7 @@ def run(ctx):
                                          type=C.rust_ty(qs[i]), build_0=a, build_k=b, k=k,
                                          definition=C.to_rust(by[qs[i][1]]) if qs[i][0] == "named" else None))
         # (2) exporting everything into one directory: any order, any number of threads, any build -> the same tree
+        mixed_checks = 0
         trees = []
         configs = [(0, 1), (1, 1), (7, 1), (0, 4), (3, 16)] if ctx.quick else [(0, 1), (1, 1), (7, 1), (11, 1), (0, 4), (3, 16), (5, 16), (9, 8), (13, 2)]
         for order, threads in configs:
@@ -85,6 +86,22 @@ def run(ctx):
                 viol.append(dict(kind="property-violated", what="the exported files depend on the order of exports / the number of threads",
                                  config=dict(order=cfg[0], threads=cfg[1]), reference=dict(order=ref_cfg[0], threads=ref_cfg[1]), differing_files=diff[:5],
                                  this=tree.get(diff[0]), reference_content=ref_tree.get(diff[0])))
+        # (2b) whether other types were written alone with T::export() before cannot be observed in what export_all() of the roots writes:
+        # every file the roots write on their own is there when other types were exported first (one process, one directory)
+        qs_ = res["queries"]
+        named_ix = [i for i, t in enumerate(qs_) if t[0] == "named" and not t[2] and not res["q"][i]["decl"].startswith("\x00")
+                    and res["q"][i]["output_path"] not in ("-", "")]
+        for alone, roots in ((named_ix[1::2], named_ix[0::2][::2]), (named_ix[0::2], named_ix[1::2][::3])):
+            st_r, tree_r = CR.run_export_mixed(res["exe"], EXPORT_DIR, [], roots)
+            st_m, tree_m = CR.run_export_mixed(res["exe"], EXPORT_DIR, alone, roots)
+            if any(st_r.get(i) != "OK" or st_m.get(i) != "OK" for i in roots):
+                continue   # a root that fails to export (known classes): nothing to compare
+            missing = sorted(p_ for p_ in tree_r if p_ not in tree_m)
+            mixed_checks += 1
+            if missing:
+                viol.append(dict(kind="property-violated", what="what export_all() writes depends on which types were exported alone before it",
+                                 exported_alone_first=[C.rust_ty(qs_[i]) for i in alone][:12], then_export_all=[C.rust_ty(qs_[i]) for i in roots][:12],
+                                 files_missing_compared_with_export_all_alone=missing[:8], seed=ctx.seed))
         # the same export twice into the same directory (second run over the existing tree)
         st2, tree2 = CR.run_export_all(res["exe"], EXPORT_DIR, 0, 1)
         if tree2 != ref_tree:
